@@ -1,1 +1,1 @@
-import RaftLogModel.Model.Sys
+import RaftLogModel.Props.C09Crc
